@@ -794,7 +794,6 @@ def _parse_topology_keys(mol: dict, lit: LineIterator) -> dict:
         formal_charge = mol["molecular_charge"]
     # Determine number of electrons from atomic numbers and formal charge
     topology_dict["charge"] = formal_charge
-    topology_dict["nelec"] = np.sum(atnums) - formal_charge
     # Check for missing mult, warn that this is a required field
     if "molecular_multiplicity" not in mol:
         warn(
@@ -821,6 +820,8 @@ def _parse_topology_keys(mol: dict, lit: LineIterator) -> dict:
     # Load ghost atoms as atoms with zero effective core charge
     if "real" in mol:
         atcorenums[~np.array(mol["real"])] = 0.0
+    # Ghost atoms carry no electrons: count the electrons of the real atoms only.
+    topology_dict["nelec"] = np.sum(atcorenums) - formal_charge
     # Load atom masses to array, canonical weights assumed if masses not given
     if "masses" in mol and "mass_numbers" in mol:
         warn(
